@@ -143,7 +143,7 @@ class Flow:
                     brk += b
                     cont += c
                 out, b, c = self.run(a["body"], aenv)
-                self.arm_out[id(a)] = self.join(out, *b, *c) or frozenset()
+                self.arm_out[id(a)] = self.join(out, *[x[1] for x in b], *c) or frozenset()
                 brk += b
                 cont += c
                 outs.append(out)
@@ -158,14 +158,14 @@ class Flow:
                 head = new_head
             else:
                 raise Unrecognised("enum dataflow did not converge")
-            exit_env = self.join(*brk)
+            mine = [b for b in brk if b[0] is None or b[0] == e.get("label")]
+            outer = [b for b in brk if not (b[0] is None or b[0] == e.get("label"))]
+            exit_env = self.join(*[b[1] for b in mine])
             self.loop_exit[id(e)] = exit_env
-            return exit_env, [], []
+            return exit_env, outer, []
         if k == "break":
-            if "label" in e:
-                raise Unrecognised("labelled break in enum dataflow")
             env2, b, c = (self.run(e["e"], env) if "e" in e else (env, [], []))
-            return None, b + [env2], c
+            return None, b + [(e.get("label"), env2)], c
         if k == "continue":
             if "label" in e:
                 raise Unrecognised("labelled continue in enum dataflow")
